@@ -1253,16 +1253,20 @@ def ls_selector_qr(decay, ls_list):
                     if (-l1, -l2) in hel_list:
                         continue
                 hel_list.append((l1, l2))
-    from sympy import Matrix
+    from sympy import Matrix, Rational
     from sympy.physics.quantum.cg import CG
+
+    def _r(x):
+        # exact (half-)integers: float spins would make the QR rank numerical
+        return Rational(int(round(2 * x)), 2)
 
     cg = []
     for l1, l2 in hel_list:
         tmp = []
         for l, s in ls_list:
-            delta = l1 - l2
-            coeff = CG(l, 0, s, delta, p0.J, delta)
-            coeff = coeff * CG(p1.J, l1, p2.J, -l2, s, delta)
+            delta = _r(l1) - _r(l2)
+            coeff = CG(_r(l), 0, _r(s), delta, _r(p0.J), delta)
+            coeff = coeff * CG(_r(p1.J), _r(l1), _r(p2.J), -_r(l2), _r(s), delta)
             tmp.append(coeff.doit())
         cg.append(tmp)
     cg = Matrix(cg)
